@@ -65,6 +65,8 @@ def mk_cmp(op: str, l: Term, r: Term) -> Term:
     """Canonical comparison: only <, <=, ==, != (sorted operands for ==/!=), is/in kept."""
     if l[0] == "const" and r[0] == "const" and op in ("==", "!="):
         return ("const", (l[1] == r[1]) if op == "==" else (l[1] != r[1]))
+    if l[0] == "const" and r[0] == "const" and op in ("is", "is not") and (l[1] is None or r[1] is None):
+        return ("const", ((l[1] is None) == (r[1] is None)) == (op == "is"))  # a constant tested against None
     if op == ">":
         return mk_cmp("<", r, l)
     if op == ">=":
@@ -2949,6 +2951,10 @@ class Walker:
                 or (args[0][0] == "call" and args[0][1] == ("builtin", "len"))
                 or (args[0][0] == "idx" and args[0][1][0] == "attr" and args[0][1][2] == "shape" and args[0][2][0] == "const")):
             return args[0]
+        # isinstance(<constant>, str / int / ...): an option handed over as a literal has the literal's type
+        if fn == ("builtin", "isinstance") and len(args) == 2 and not kwargs and args[0][0] == "const" \
+                and args[1][0] == "builtin" and args[1][1] in ("str", "int", "float", "bool", "bytes"):
+            return ("const", isinstance(args[0][1], {"str": str, "int": int, "float": float, "bool": bool, "bytes": bytes}[args[1][1]]))
         # int(struct.unpack(fmt, buf)[k]): the fields the library's formats unpack at the head of a record are integers already
         if fn == ("builtin", "int") and len(args) == 1 and not kwargs and args[0][0] == "idx" and args[0][2][0] == "const" \
                 and args[0][1][0] == "call" and args[0][1][1] == ("mod", "struct.unpack") and args[0][1][2] \
